@@ -4,6 +4,7 @@
 package harn
 
 import (
+	"runtime/debug"
 	"sync"
 	"sync/atomic"
 
@@ -57,6 +58,9 @@ var bigSem = make(chan struct{}, 2)
 
 func Big(f func()) {
 	bigSem <- struct{}{}
-	defer func() { <-bigSem }()
+	defer func() {
+		<-bigSem
+		debug.FreeOSMemory() // return the builder's working set before the next big job starts
+	}()
 	f()
 }
